@@ -1414,13 +1414,17 @@ class GaussianState(State):
 
             return reduced_state.get_phaseshifter_expectation_value(reduced_angles)
 
-        D_phi = np.diag(1 / (np.tan(np_angles / 2)).repeat(2))
+        # Same formula as in the abstract branch: the former expression ordered
+        # cot(phi/2) per mode pairwise (xpxp-like) against the xxpp-like ordering of
+        # the complex covariance and split the square root of the determinant into
+        # factors, which gave wrong values (and signs) for more than one mode.
+        z = np.exp(1j * np_angles)
 
-        cov_D_phi = (cov + 1j * D_phi) / 2
+        A = np.diag(np.concatenate([1 - z, 1 - z]) / 2)
+        B = np.diag(np.concatenate([1 + z, 1 + z]) / 2)
 
-        exponent = -(np.conj(mean) @ np.linalg.inv(cov_D_phi) @ mean) / 2
-        denominator = np.prod(1 - np.exp(1j * np_angles)) * np.sqrt(
-            np.linalg.det(cov_D_phi)
-        )
+        M = cov @ A + B
 
-        return np.exp(exponent) / denominator
+        exponent = -(np.conj(mean) @ A @ np.linalg.solve(M, mean))
+
+        return np.exp(exponent) / np.sqrt(np.linalg.det(M))
